@@ -261,7 +261,7 @@ def ty(t):
                 inner = inner[2][0]
             return "(multi %s)" % " ".join(sorted(ty(x[0]) for x in inner[1]))
         if name == "Function":
-            f = args[0][2]
+            f = _Fields("FunctionType", args[0][2])
             return "(fn (%s) %s)" % (" ".join(ty(x) for x in f["params"][1]), ty(f["return_type"]))
         if name == "Struct":
             inner = args[0]
@@ -286,6 +286,34 @@ POST = {"Sum": "sum", "Product": "product", "All": "all", "Any": "any", "BitAnd"
         "Collect": "collect", "Iter": "iter"}
 
 
+FIELD_POS = {
+    "InstructionWithStr": ["instruction", "str"], "Set": ["ident", "instruction"], "Mut": ["var_type", "instruction"],
+    "Block": ["instructions"], "Array": ["instructions", "element_type"], "Tuple": ["elements"], "ArrayRepeat": ["value", "len"],
+    "Struct": ["idents", "values"], "IfElse": ["condition", "if_true", "if_false"],
+    "SetIfElse": ["ident", "var_type", "expression", "if_match", "else_instruction"], "Match": ["expression", "arms"],
+    "Type": ["ident", "var_type", "instruction"], "DestructTuple": ["idents", "instruction"], "TupleAccess": ["tuple", "index"],
+    "FieldAccess": ["var", "ident"], "Slicing": ["lhs", "start", "stop", "step"], "TypeFilter": ["iterator", "var_type"],
+    "Reduce": ["iter", "initial_value", "function"], "UnaryOperation": ["instruction", "op"], "BinOperation": ["lhs", "rhs", "op"],
+    "AnonymousFunction": ["params", "body", "return_type"], "FunctionDeclaration": ["ident", "params", "body", "return_type"],
+    "Param": ["name", "var_type"], "FunctionType": ["params", "return_type"],
+}
+
+
+class _Fields(dict):
+    """fields of a `Name { a: x, b: y }` node by name or - when a field was renamed (a harmless refactoring) - by its position
+    in the declaration (the number of fields must be unchanged)"""
+    def __init__(self, kind, d):
+        super().__init__(d)
+        self.kind = kind
+        self.order = list(d.values())
+
+    def __missing__(self, name):
+        pos = FIELD_POS.get(self.kind, [])
+        if name in pos and len(self.order) == len(pos):
+            return self.order[pos.index(name)]
+        raise DumpError("field %s of %s missing" % (name, self.kind))
+
+
 def _inner(t):
     """`Kind(Kind { .. })` / `Kind(Kind(..))` -> the inner node"""
     return t[2][0]
@@ -302,7 +330,7 @@ def ins(t):
     if k == "const":
         return const_expr(t[1])
     if k == "struct" and t[1] == "InstructionWithStr":
-        return ins(t[2]["instruction"])
+        return ins(_Fields("InstructionWithStr", t[2])["instruction"])
     if k == "unit":
         return {"Break": "break", "Continue": "continue"}.get(t[1], ["opaque", t[1]])
     if k != "tuple":
@@ -311,7 +339,7 @@ def ins(t):
     if name == "LocalVariable":
         return ["id", t[2][0][1]]
     x = _inner(t)
-    f = x[2] if x[0] == "struct" else None
+    f = _Fields(name, x[2]) if x[0] == "struct" else None
     if name == "Set":
         return ["set", f["ident"][1], ins(f["instruction"])]
     if name == "Mut":
@@ -335,7 +363,8 @@ def ins(t):
         arms = []
         for a in f["arms"][1]:
             if a[0] == "struct" and a[1] == "Type":
-                arms.append(["ty", a[2]["ident"][1], ty(a[2]["var_type"]), ins(a[2]["instruction"])])
+                af = _Fields("Type", a[2])
+                arms.append(["ty", af["ident"][1], ty(af["var_type"]), ins(af["instruction"])])
             elif a[0] == "tuple" and a[1] == "Value":
                 arms.append(["val", [ins(c) for c in a[2][0][1]], ins(a[2][1])])
             elif a[0] == "tuple" and a[1] == "Other":
@@ -393,7 +422,7 @@ def ins(t):
         ps = f["params"]
         while ps[0] == "tuple":              # Params([..])
             ps = ps[2][0]
-        params = [[q[2]["name"][1], ty(q[2]["var_type"])] for q in ps[1]]
+        params = [[_Fields("Param", q[2])["name"][1], ty(_Fields("Param", q[2])["var_type"])] for q in ps[1]]
         body = [ins(y) for y in f["body"][1]]
         if name == "AnonymousFunction":
             return ["fn", params, ty(f["return_type"])] + body
